@@ -127,6 +127,82 @@ def compiler_name_collision(src):
     return re.search(r"\b_mimium_global\b", src) is not None
 
 
+
+# ---------------------------------------------------------------------------------------------------------------------
+# scope-aware renaming to names that ARE visible elsewhere (functions of a module reached through `use m::*`, `use m::{..}`,
+# a sibling inside the enclosing `mod`, top-level functions): a binder may take the name of a function that is used in its own
+# initialiser (a `let` scope starts after the initialiser) or anywhere outside its scope, as long as that name is not referenced
+# inside the binder's scope.  The renaming is consistent and capture-free, so accept/reject and outputs must not change.
+def gen_scope_case(rng):
+    """-> (original source, renamed source, description).  Both are rendered from one template with two binder-name maps."""
+    pub = ["helper", "gain", "twice", "osc"]
+    rng_fns = pub[:rng.range(2, 4)]
+    style = rng.choice(["wild", "list", "alias1"])          # how dsp's file imports m
+    consts = [rng.range(1, 6) for _ in range(8)]
+    # module body: public functions, one private sibling used through a local inside the module
+    def fbody(i, arg):
+        k = consts[i]
+        return rng.choice(["%s * %d.0 + %d.0" % (arg, k, i + 1), "%s + %d.0" % (arg, k), "(%s - %d.0) * 2.0" % (arg, k)])
+    mod_fns = [(f, fbody(i, "x")) for i, f in enumerate(rng_fns)]
+    nb = rng.range(2, 4)
+    binders = ["b%d" % i for i in range(nb)]
+    # dsp lets: let b_i = <call of an imported / top-level function on literals and earlier binders>
+    calls = []
+    for i in range(nb):
+        f = rng.choice(rng_fns + ["top"])
+        arg = rng.choice(["%d.0" % consts[i]] + binders[:i]) if i else "%d.0" % consts[0]
+        extra = (" + " + rng.choice(binders[:i])) if i and rng.chance(1, 2) else ""
+        calls.append((f, arg, extra))
+    tuple_let = nb >= 3 and rng.chance(1, 3)
+    # renaming: a binder may take the name of the function called in its own initialiser, or of any function that is not called
+    # in a later initialiser; new names of distinct binders are distinct
+    new = {}
+    used_later = [set(c[0] for c in calls[i + 1:]) for i in range(nb)]
+    for i, b in enumerate(binders):
+        cands = [f for f in rng_fns + ["top", "inner"] if f not in used_later[i] and f not in new.values()]
+        if tuple_let and i < 2:
+            # both names of one tuple pattern are bound together: neither may be used by the other's initialiser component later
+            cands = [f for f in cands if f not in (calls[0][0], calls[1][0]) or f == calls[i][0]]
+        if cands and rng.chance(3, 4):
+            pick = calls[i][0] if (calls[i][0] in cands and rng.chance(2, 3)) else rng.choice(cands)
+            new[b] = pick
+    if not new:
+        new[binders[-1]] = calls[-1][0] if calls[-1][0] not in new.values() else "inner"
+    inner_local = rng.chance(1, 2)      # inside the module: `let L = sibling(x)` with L renamed to `sibling`
+    qualify = style == "none"
+    def render(ren):
+        def nm(b): return ren.get(b, b)
+        L = ["mod m {"]
+        for f, body in mod_fns:
+            L.append("    pub fn %s(x){ %s }" % (f, body))
+        L.append("    fn inner(x){ x * 3.0 }")
+        il = ren.get("IL", "il")
+        L.append("    pub fn via(x){ let %s = inner(x)\n        %s + 1.0 }" % (il, il) if inner_local else "    pub fn via(x){ inner(x) + 1.0 }")
+        L.append("}")
+        if style == "wild": L.append("use m::*")
+        elif style == "list": L.append("use m::{%s, via}" % ", ".join(rng_fns))
+        else:
+            for f in rng_fns + ["via"]:
+                L.append("use m::%s" % f)
+        L.append("fn top(x){ x + 100.0 }")
+        body = []
+        start = 0
+        if tuple_let:
+            body.append("    let (%s, %s) = (%s(%s), %s(%s))" % (nm(binders[0]), nm(binders[1]), calls[0][0], calls[0][1], calls[1][0], "%d.0" % consts[1]))
+            start = 2
+        for i in range(start, nb):
+            f, arg, extra = calls[i]
+            a = nm(arg) if arg in binders else arg
+            e = (" + " + nm(extra[3:])) if extra else ""
+            body.append("    let %s = %s(%s)%s" % (nm(binders[i]), f, a, e))
+        body.append("    " + " + ".join(["%s * %d.0" % (nm(b), 10 ** i) for i, b in enumerate(binders)] + ["via(2.0)"]))
+        L.append("fn dsp(){\n%s\n}" % "\n".join(body))
+        return "\n".join(L) + "\n"
+    ren = dict(new)
+    if inner_local and rng.chance(2, 3):
+        ren["IL"] = "inner"
+    return render({}), render(ren), "binders renamed: %s (import style %s)" % (ren, style)
+
 def summary(r):
     res = {}
     for be in ("vm", "wasm"):
@@ -209,6 +285,13 @@ def run(ck):
         f1, f2 = names(k), names(k)
         reqs.append({"src": render(f1), "n": 3, "state": False}); meta.append((rbase + ri, "orig"))
         reqs.append({"src": render(f2), "n": 3, "state": False}); meta.append((rbase + ri, "field-rename"))
+    # scope-aware renaming onto names visible elsewhere (module functions reached by use / wildcard / sibling, top-level functions)
+    sbase = rbase + (60 if quick else 600)
+    for si in range(120 if quick else 1200):
+        o_src, r_src, _d = gen_scope_case(rng.fork(("scope", si)))
+        reqs.append({"src": o_src, "n": 3, "state": False}); meta.append((sbase + si, "orig"))
+        if r_src != o_src:
+            reqs.append({"src": r_src, "n": 3, "state": False}); meta.append((sbase + si, "scope-rename"))
     res = run_impl(iexe, reqs, timeout_per_batch=400)
     stats = {}
     def bump(k, n=1): stats[k] = stats.get(k, 0) + n
